@@ -119,8 +119,48 @@ def hygiene():
     return bad
 
 
+def write_if_changed(path, text):
+    try:
+        if open(path).read() == text:
+            return
+    except OSError:
+        pass
+    os.makedirs(os.path.dirname(path), exist_ok=True)
+    open(path, "w").write(text)
+
+
+def gen_from_parts():
+    """coq/parts/*.part -> coq/_CoqProject, coq/Extract.v, ocaml/judges.ml (all generated)."""
+    vfiles, judges = [], []
+    for f in sorted(glob.glob(os.path.join(COQ, "parts", "*.part"))):
+        for line in open(f):
+            w = line.split()
+            if not w or w[0].startswith("#"):
+                continue
+            if w[0] == "v":
+                vfiles.append(w[1])
+            elif w[0] == "judge":
+                judges.append((w[1], w[2], w[3]))
+    cp = "-Q . BBS\n-arg -w -arg -notation-overridden,-deprecated-hint-without-locality,-ambiguous-paths\n" + "\n".join(vfiles) + "\n"
+    write_if_changed(os.path.join(COQ, "_CoqProject"), cp)
+    mods = sorted(set(j[1] for j in judges))
+    ex = ("(** GENERATED from coq/parts/*.part.  Extraction of the executable models and monitors.\n"
+          "    ExtrOcamlBasic only: bool, option, list, prod, unit, sumbool map to OCaml's; N, Z, positive and\n"
+          "    nat stay Coq inductives.  No Extract Constant / Extract Inductive of our own. *)\n"
+          "From Coq Require Import extraction.Extraction extraction.ExtrOcamlBasic ZArith.\n"
+          "From BBS Require Import Common.Sx %s.\n"
+          "Extraction \"bbs.ml\" Z.add Z.mul Z.opp sx_eqb %s.\n") % (" ".join(mods), " ".join(j[2] for j in judges))
+    write_if_changed(os.path.join(COQ, "Extract.v"), ex)
+    jm = "(* GENERATED from coq/parts/*.part *)\nopen Bbs\nlet judge_of (prop : string) : sx -> sx -> sx =\n  match prop with\n"
+    for pr, _, fn in judges:
+        jm += "  | \"%s\" -> %s\n" % (pr, fn)
+    jm += "  | _ -> failwith (\"unknown property \" ^ prop)\n"
+    write_if_changed(os.path.join(VERIF, "ocaml", "judges.ml"), jm)
+
+
 def build_coq(log):
     """Regenerate constants, run make -k.  Returns (ok, failed_files, output)."""
+    gen_from_parts()
     gen = os.path.join(VERIF, "tools", "genconsts", "genconsts.py")
     if os.path.exists(gen):
         rc, o = sh([sys.executable, gen, REPO, os.path.join(COQ, "Generated", "Consts.v")], timeout=120)
@@ -192,6 +232,7 @@ def tree_hash(paths):
 def build_driver(log):
     cone = [os.path.join(COQ, f) for f in dep_cone("Extract.v")]
     cone.append(os.path.join(VERIF, "ocaml", "driver.ml"))
+    cone.append(os.path.join(VERIF, "ocaml", "judges.ml"))
     stamp = os.path.join(OUT, "driver.stamp")
     hv = tree_hash(cone)
     drv = os.path.join(VERIF, "ocaml", "driver")
@@ -204,7 +245,7 @@ def build_driver(log):
     log.append(o[-2000:])
     if rc != 0:
         return False, "extraction failed:\n" + o[-2000:]
-    rc, o = sh(["ocamlfind", "ocamlopt", "-O3", "-w", "-a", "-I", "gen", "gen/bbs.mli", "gen/bbs.ml", "driver.ml", "-o", "driver"],
+    rc, o = sh(["ocamlfind", "ocamlopt", "-O3", "-w", "-a", "-I", "gen", "gen/bbs.mli", "gen/bbs.ml", "judges.ml", "driver.ml", "-o", "driver"],
                cwd=os.path.join(VERIF, "ocaml"), timeout=900)
     log.append(o[-2000:])
     if rc != 0:
